@@ -249,7 +249,7 @@ func init() {
 						}
 					}},
 				{Name: "arithmetic-shift", Serial: true, Bounds: engine.Bounds{InputDev: -1},
-					Rule: "index in [-64,64] (thorough: [-2048,2048]) u {+-3,+-(2^k+-1) for k in 10,31,40,61} x shift in [-62,62] without int64 overflow: CalculateArithmeticShift = floor(index*2^shift) (big.Int); non-trivial = distinct cases with negative index and negative shift",
+					Rule: "index in [-64,64] (thorough: [-2048,2048]) u {+-3,+-(2^k+-1) for k in 10,31,40,61} x shift in [-62,62] u {+-63, +-64, +-65, +-100, 127, -128, +-2^20, MaxInt64, MinInt64(+1)} without int64 overflow: CalculateArithmeticShift = floor(index*2^shift) (big.Int); non-trivial = distinct cases with negative index and negative shift",
 					Body: func(c *engine.Ctx) {
 						var idx []int64
 						for i := -idxWin; i <= idxWin; i++ {
@@ -260,12 +260,28 @@ func init() {
 							idx = append(idx, p, -p, p+1, -(p + 1), p-1, -(p - 1))
 						}
 						i := idx[c.In("index", len(idx))]
-						s := int64(c.In("shift", 125)) - 62
-						want := new(big.Int)
-						if s >= 0 {
-							want.Lsh(big.NewInt(i), uint(s))
+						// -62..62 densely, then the shifts at and beyond the word size (a right shift by >= 64 is still floor: -1 or 0)
+						wide := []int64{63, -63, 64, -64, 65, -65, 100, -100, 127, -128, 1 << 20, -(1 << 20), math.MaxInt64, math.MinInt64 + 1, math.MinInt64}
+						var s int64
+						if k := c.In("shift", 125+len(wide)); k < 125 {
+							s = int64(k) - 62
 						} else {
+							s = wide[k-125]
+						}
+						want := new(big.Int)
+						switch {
+						case s >= 0 && s <= 200:
+							want.Lsh(big.NewInt(i), uint(s))
+						case s > 200: // index * 2^s does not fit unless the index is 0
+							if i != 0 {
+								c.Skip("overflows-int64")
+							}
+						case s >= -200:
 							want.Rsh(big.NewInt(i), uint(-s))
+						default: // floor(index * 2^s) for a huge negative s: -1 for negative indices, else 0
+							if i < 0 {
+								want.SetInt64(-1)
+							}
 						}
 						if !want.IsInt64() {
 							c.Skip("overflows-int64")
